@@ -16,44 +16,47 @@ from translate import c05_sites
 
 MANIFEST = dict(
     technique='Rocq proof (Flocq binary64 model of Python float % 360.0: range, identity-on-range and exact-subtraction-on-[360,720) theorems '
-              'over all finite doubles; exact dyadic model of format_float: shape/value/error theorems and the exact "-0" carve-out; model of '
-              'parse_vec_str with the round-trip theorem parse(format) within 5e-7 for every bracket/whitespace wrapping; the composed chain '
-              'str -> parse_vec_str -> float() -> % 360 % 360 for whole angles and vectors; frame + heap/alias theorems for frozen values and '
-              'copies; slot-transfer model for the VALUE of a copy) + fail-closed, semantically normalising ast census of math.py (store '
-              'sites, angle creations, format/parse pipelines by return-path enumeration, mutation events, result kinds of every public '
-              'method, symbolic run of every copy-like method; the sets of names the census relies on - methods that build a new object, methods that '
-              'write their receiver or argument - are least fixpoints computed from the source, private helpers are recognised by form) + vm_compute correspondences (bit-exact / string-exact / parse results / '
-              'frames / result aliasing / copied slots bit for bit) + history search',
-    text='Theorems in Props/C05.v. (a) For EVERY finite binary64 x the executable Flocq model of x % 360.0 % 360.0 is finite and in [0,360) (a '
-         'single % reaches exactly 360.0, witness -1e-14), is the identity on [0,360) and subtracts exactly 360 on [360,720); hence, if every '
-         'store to _pitch/_yaw/_roll is a double modulo, a copy of an angle slot or 0.0, all angle slots stay in [0,360) after every history '
-         'of stores with finite operands. The census also lists every expression that creates an Angle (constructor / __new__ handed to '
-         '_to_angle / __new__ with all three slots stored on every path), none unclassified. (b) Frame theorem: with a mutation census in '
-         'which no method reachable with a frozen receiver writes its receiver, an argument or a copy() of either, frozen objects never '
-         'change and non-receivers are never written. Copy theorem on a heap with aliasing: for a result-kind table in which '
-         'copy/__copy__/__deepcopy__/__reduce__/freeze/thaw return a NEW object or (frozen classes only) the receiver, and a census in which '
-         'they write nothing, operating on the copy never changes the source and vice versa, for every later history. Value of a copy: for '
-         'the slot-transfer table obtained by running each copy-like method symbolically, the result has the promised class, every slot of '
-         'a new vector/matrix is exactly the source slot, and every slot of a new angle built from a source in range has the same real '
-         'value and is in range (the constructor normalisation is the identity there). (c) format_float on every dyadic: text is '
-         '-?digits(.1-6 digits), no trailing zero, no exponent; "-0" is printed IF AND ONLY IF the input is in the carved-out class (no '
-         'repair in the source, negative, non-zero, |x|*1e6 <= 1/2); value = round-half-even(|x|*1e6)/1e6, within 5e-7 of x. parse_vec_str '
-         'as read from the source (strip, bracket sets, split, float) applied to three formatted numbers in any documented bracket style '
-         'with any whitespace returns three decimals each within 5e-7 of its component (exact integer statement, carved-out "-0" '
-         'included); with float() modelled as correctly rounded the double read back is within 5e-7 + ulp/2. (a)+(c) composed: '
-         'from_str(str(angle)) for an angle whose slots are in range stores slots that are again in [0,360) and within 5e-7 + ulp/2 of the '
-         'printed ones modulo 360 (359.9999997 -> "360" -> 360.0 -> 0.0 is the wrap-around branch); from_str(str(vec)) is within 5e-7 + '
-         'ulp/2 per component. All generated premises are kernel-checked instance obligations on every run.',
-    note='Trusted: Coq kernel + vm_compute, Flocq, translate/c05_sites.py, the hand models Num/Mod360.v, Num/Dec6.v, Num/VecText.v (tied by '
-         'bit-exact / string-exact / parse-result differential runs; str.isspace() table compared on all 1114112 code points), '
-         'SM/FrozenCopyValue.v (tied bit for bit on executed copies). Axioms: the four classical real-number axioms of Coq Reals (through '
-         'Flocq) for the % 360 theorems, the float() corollaries and the composed round-trip theorems only; frame, copy, format and parse '
-         'theorems are axiom-free. Assumptions: operands of the modulo are finite; printf("%.6f") and float() are correctly rounded '
-         '(float() enters as the definition py_float = round-to-nearest-even; the composed theorems quantify over the finite double whose '
-         'value is py_float of the decoded field); only plain-decimal fields are predicted by the parse model (other spellings accepted by '
-         'float() - exponents, inf, underscores - get no prediction); only the public API is used. Not modelled: float VALUES of rotations '
-         '(sin/cos/atan2; only finiteness assumed), __format__ with a user spec, hash/eq consistency, the Cython twin. Known finding kept: '
-         'format_float prints "-0" on the carved-out class (suite pins it); a "-0" outside that class has its own key.',
+              'over all finite doubles; the constructors of Angle/FrozenAngle as a dispatch table over argument forms; exact dyadic model of '
+              'format_float: shape/value/error theorems and the exact "-0" carve-out; model of parse_vec_str with the round-trip theorem '
+              'parse(format) within 5e-7 for every bracket/whitespace wrapping; the composed chain str -> parse_vec_str -> float() -> % 360 % 360 '
+              'for whole angles and vectors; string-level model of the zero stripping of __format__ with a user spec; frame + heap/alias '
+              'theorems for frozen values and copies; slot-transfer model for the VALUE of a copy; hash kinds per class; ONE composed statement '
+              'c05_property over all generated objects) + fail-closed, semantically normalising ast census of math.py (store sites, angle '
+              'creations, constructor paths per argument form by symbolic run, format/parse pipelines by return-path enumeration, __format__ '
+              'as text terms, mutation events, result kinds of every public method, symbolic run of every copy-like method, __hash__ after '
+              'Python\'s resolution, in-place operator methods; the sets of names the census relies on are least fixpoints computed from the '
+              'source) + vm_compute correspondences (bit-exact / string-exact / parse results / frames / result aliasing / copied slots bit for '
+              'bit / __format__ components string-exact) + searches (histories over 65 operation kinds, matrix->angle routes, every constructor '
+              'argument form x boundary values x copies, hash/== of frozen values as keys, every in-place operator on frozen receivers, '
+              '__format__ specs, text round trips), every call into the implementation under a CPU-time limit',
+    text='Theorems in Props/C05.v; c05_property states the whole property over the record of everything read from the source, under the boolean '
+         'hypotheses c05_source_ok which are kernel-checked on today\'s objects on every run. (a) For EVERY finite binary64 x the executable '
+         'Flocq model of x % 360.0 % 360.0 is finite and in [0,360) (a single % reaches exactly 360.0, witness -1e-14), is the identity on '
+         '[0,360) and subtracts exactly 360 on [360,720); hence, if every store to _pitch/_yaw/_roll is a double modulo, a copy of an angle '
+         'slot or 0.0, all angle slots stay in [0,360) after every history of stores with finite operands; and for the dispatch table of '
+         'Angle.__init__/FrozenAngle.__new__ every form of the argument (number, same class, twin angle class, Vec, FrozenVec, other '
+         'iterable) has a path whose result is in range (a slot is taken over unchanged only from an angle). The census also lists every '
+         'expression that creates an Angle, none unclassified. (b) Frame theorem: with a mutation census in which no method reachable with '
+         'a frozen receiver writes its receiver, an argument or a copy() of either, frozen objects never change and non-receivers are never '
+         'written; the hash of a frozen object (a function of all of its slots and nothing else, mutable classes unhashable) is the same '
+         'after every history and equal for equal values; no class of a frozen object defines an in-place operator. Copy theorem on a heap '
+         'with aliasing, and the VALUE of a copy (class, every slot; angles: same real value, in range). (c) format_float on every dyadic: '
+         'text is -?digits(.1-6 digits), no trailing zero, no exponent; "-0" is printed IF AND ONLY IF the input is in the carved-out class; '
+         'value within 5e-7 of x. parse_vec_str applied to three formatted numbers in any documented bracket style with any whitespace '
+         'returns three decimals each within 5e-7 of its component; with float() modelled as correctly rounded the double read back is '
+         'within 5e-7 + ulp/2; from_str(str(angle)) is in range again and within that bound on the circle. __format__ with a spec: a '
+         'fixed-point text loses only trailing zeros of its fraction (and the dot with them), a text with an exponent or without a dot is '
+         'unchanged (the pinned tree stripped zeros of the exponent: repaired, refuted in the model).',
+    note='Trusted: Coq kernel + vm_compute, Flocq, translate/c05_sites.py, the hand models Num/Mod360.v, Num/Dec6.v, Num/VecText.v, '
+         'Num/SpecStrip.v (tied by bit-exact / string-exact / parse-result differential runs; str.isspace() table compared on all 1114112 '
+         'code points), SM/FrozenCopyValue.v (tied bit for bit on executed copies). Axioms: the four classical real-number axioms of Coq '
+         'Reals (through Flocq) for the % 360 theorems, the constructor theorem, the float() corollaries, the composed round-trip theorems '
+         'and c05_property only; frame, copy, hash, format, parse and __format__ theorems are axiom-free. Assumptions: operands of the modulo '
+         'are finite; printf("%.6f"), format() and float() are correctly rounded; only plain-decimal fields are predicted by the parse model; '
+         'only the public API is used. Not modelled: float VALUES of rotations (sin/cos/atan2; only finiteness assumed, searched), what '
+         'format(value, spec) itself prints (Python\'s; only the post-processing is modelled), == (tolerance 1e-6; searched), the Cython '
+         'twin. Known findings kept: format_float / str / __format__(".Nf") print "-0" on negative values that round to zero (suite pins '
+         'str); == within the tolerance does not imply equal hashes (inherent to a tolerance equality).',
 )
 
 IMPORTS = ['Coq.ZArith.ZArith', 'Coq.NArith.NArith', 'Coq.Lists.List', 'Coq.Strings.String', 'SV.Num.Mod360', 'SV.Num.AngleSites', 'SV.Num.AngleCtor', 'SV.Num.SpecStrip', 'SV.Num.C05Whole',
@@ -598,10 +601,19 @@ def slots_of(o) -> tuple[str, ...]:
     return VEC_SLOTS if 'Vec' in n else ANG_SLOTS if 'Angle' in n else MAT_SLOTS
 
 
+def safe_hash(o):
+    """hash(o), or a marker when the object is unhashable (a frozen vector/angle must be usable as a key: reported by
+    the searches as frozen-class-unhashable-<Class>)."""
+    try:
+        return hash(o)
+    except TypeError:
+        return 'UNHASHABLE'
+
+
 def snap(o) -> tuple:
     """Observable value of an object: raw slots (as exact hex), hash for the hashable ones, extra instance attributes."""
     raw = tuple(getattr(o, s).hex() if isinstance(getattr(o, s, None), float) else repr(getattr(o, s, None)) for s in slots_of(o))
-    h = hash(o) if type(o).__name__ in ('FrozenVec', 'FrozenAngle') and finite_obj(o) else None
+    h = safe_hash(o) if type(o).__name__ in ('FrozenVec', 'FrozenAngle') and finite_obj(o) else None
     d = tuple(sorted(getattr(o, '__dict__', {}).items()))
     return (type(o).__name__, raw, h, d)
 
@@ -724,7 +736,10 @@ def apply_op(op: tuple, regs: list):
     if name == 'vec_reads':
         if not isvec(A): return None
         A.len_sq(); A.mag(); A.other_axes('xyz'[k % 3]); A.in_bbox(A, A); A.dot(A); A.as_tuple()
-        if sum(1 for c in A if c) == 1: A.axis()
+        try:
+            A.axis()
+        except ValueError:
+            pass                    # not on an axis (within its tolerance)
         if finite_small(A): list(A.iter_line(A + (0.0, 0.0, 8.0), 4))
         return ('<reads>', a, [], [])
     if name == 'ctor_cross':          # an angle from a vector object, a vector from an angle object (and the same family)
@@ -870,7 +885,7 @@ def apply_op(op: tuple, regs: list):
             A.join(';'); format(A, '.3f'); list(A); tuple(reversed(A)); A.as_tuple() if not isvec(A) else None
         return ('__str__', a, [], [])
     if name == 'hash':
-        if type(A).__name__ in ('FrozenVec', 'FrozenAngle'):
+        if type(A).__name__ in ('FrozenVec', 'FrozenAngle') and safe_hash(A) != 'UNHASHABLE':
             hash(A); {A: 1}
         return ('__hash__', a, [], [])
     if name == 'eq':
@@ -882,6 +897,9 @@ def apply_op(op: tuple, regs: list):
 
 COPY_OPS = {'copy', 'copy_copy', 'deepcopy', 'pickle', 'freeze', 'thaw', 'ctor_same', 'ctor_frozen'}
 SHAPE_OPS = {'copy', 'copy_copy', 'deepcopy', 'pickle', 'freeze', 'thaw'}       # the methods of Gen copy_shapes
+NEVER_RAISES = COPY_OPS | {'new_vec', 'new_fvec', 'new_ang', 'new_fang', 'new_kw', 'new_mat_yaw', 'new_mat_pitch', 'new_mat_roll', 'new_mat_angle',
+                           'new_fmat_angle', 'ang_from_str', 'vec_from_str', 'ctor_cross', 'iter_ctor', 'str', 'hash', 'eq', 'neg', 'abs', 'mat_to_angle',
+                           'mat_transpose', 'vec_reads', 'to_matrix', 'mat_from_angstr', 'ang_mul', 'ang_rmul', 'with_axes'}
 
 
 def finite_small(o) -> bool:
@@ -919,7 +937,10 @@ class HistRunner:
         except ImplTimeout:
             problems.append((f'implementation-hangs-in-{op[0]}', f'{op[0]} did not return within {IMPL_CPU_LIMIT:.0f} s of CPU time', step))
             return
-        except (TypeError, AttributeError, ValueError, ZeroDivisionError, KeyError, NotImplementedError, OverflowError, ArithmeticError):
+        except (TypeError, AttributeError, ValueError, ZeroDivisionError, KeyError, NotImplementedError, OverflowError, ArithmeticError) as e:
+            if op[0] in NEVER_RAISES:        # constructions from finite numbers, copies, reading: no input makes these fail
+                problems.append((f'raised-{type(e).__name__}-in-{op[0]}', f'{op[0]} raised {type(e).__name__}: {e}', step))
+                return
             res = ('<raised>', op[1], [], [])
         if res is None:
             return
@@ -964,6 +985,9 @@ class HistRunner:
                 problems.append((f'copy-not-equal-{op[0]}-{type(src).__name__}', f'{op[0]} of {snap(src)} gave {snap(dst)}', step))
             if dst is src and not is_frozen(src):
                 problems.append((f'copy-is-same-object-{op[0]}-{type(src).__name__}', f'{op[0]} returned the mutable source itself', step))
+        for o in regs[nregs:]:
+            if type(o).__name__ in ('FrozenVec', 'FrozenAngle') and safe_hash(o) == 'UNHASHABLE':
+                problems.append((f'frozen-class-unhashable-{type(o).__name__}', f'hash() of the {type(o).__name__} returned by {op[0]} raises TypeError', step))
         # (a) every angle in range, now and for every register
         for i, o in enumerate(regs):
             if isang(o) and finite_obj(o):
@@ -1357,7 +1381,7 @@ def ctor_posts() -> dict:
             return f(o)
         return g
     P = {'copy': lambda o: o.copy(), 'copy_copy': copy.copy, 'deepcopy': copy.deepcopy}
-    for proto in range(2, pickle.HIGHEST_PROTOCOL + 1):
+    for proto in range(0, pickle.HIGHEST_PROTOCOL + 1):
         P[f'pickle{proto}'] = lambda o, proto=proto: pickle.loads(pickle.dumps(o, protocol=proto))
     P['freeze'] = only(lambda o: not is_frozen(o), lambda o: o.freeze())
     P['thaw'] = only(is_frozen, lambda o: o.thaw())
@@ -1421,8 +1445,10 @@ def ctor_case(cname: str, form: str, v: list, k: int, limit=None) -> list[tuple[
             ref = C(*exp)
             if not (o == ref) or (o != ref) or not (o == exp) or not (ref == o):
                 out.append((f'ctor-not-equal-to-same-value-{form}-{cname}', f'{what} == {ref!r} is false'))
+            if is_frozen(o) and safe_hash(o) == 'UNHASHABLE':
+                return [(f'frozen-class-unhashable-{cname}', f'hash() of {what} raises TypeError')]
             if is_frozen(o) and hash(o) != hash(ref):
-                out.append((f'frozen-hash-differs-for-same-value-{form}-{cname}', f'hash of {what} differs from hash({ref!r})'))
+                out.append((f'frozen-hash-differs-for-same-value-constructed-{cname}', f'hash of {what} differs from hash({ref!r})'))
     if out:
         return out
     for pname, post in ctor_posts().items():
@@ -1443,13 +1469,76 @@ def ctor_case(cname: str, form: str, v: list, k: int, limit=None) -> list[tuple[
             continue
         if hexes(raw_slots(r)) != hexes(got):
             out.append((f'copy-not-equal-{pname}-{cname}', f'{pname} of {what} = {got!r} holds {raw_slots(r)!r}'))
-        elif not (r == o) or (r != o) or (is_frozen(r) and is_frozen(o) and hash(r) != hash(o)):
+        elif not (r == o) or (r != o) or (is_frozen(r) and is_frozen(o) and safe_hash(r) != safe_hash(o)):
             out.append((f'copy-compares-unequal-{pname}-{cname}', f'{pname} of {what}: == / hash disagree although all slots are identical'))
         if r is o and not is_frozen(o):
             out.append((f'copy-is-same-object-{pname}-{cname}', f'{pname} of {what} returned the mutable object itself'))
         if raw_slots(o) != got:
             out.append((f'source-changed-by-{pname}-{cname}', f'{pname} changed {what} from {got!r} to {raw_slots(o)!r}'))
     return out
+
+
+# constructor forms that call the constructor directly with an argument of one form of Num/AngleCtor.v (None: depends on the class)
+FORM_TO_ARGFORM = {'floats': 'FNumber', 'numbers': 'FNumber', 'one': 'FNumber', 'two': 'FNumber', 'kw': 'FNumber', 'pos_kw': 'FNumber',
+                   'vec': 'FVec', 'fvec': 'FFrozenVec', 'angle': None, 'fangle': None, 'tuple': 'FIterable', 'list': 'FIterable',
+                   'iterator': 'FIterable', 'generator': 'FIterable', 'map': 'FIterable', 'reversed': 'FIterable', 'vec_tuple': 'FIterable',
+                   'deque': 'FIterable', 'array': 'FIterable', 'long4': 'FIterable', 'short1_defaults': 'FIterable', 'short2_defaults': 'FIterable'}
+CTOR_CORR_CASES: list[tuple] = []
+
+
+def corr_ctor_rows(ck: Ck, side: dict):
+    """The generated dispatch table angle_ctor_rows with its meaning ctor_eval (Num/AngleCtor.v) against the objects the
+    constructors really built in search_ctor_forms: for the row of (constructor, argument form) the three slots the model
+    computes from the supplied floats (vm_compute, Flocq % 360.0) must be the slots of the object, bit for bit."""
+    import srctools.math as M
+    ctors = {c.split('.')[0]: c for c in side.get('angle_ctors', [])}
+    cases = []
+    per: dict = {}
+    for cname, form, v, k in CTOR_CORR_CASES:
+        af = FORM_TO_ARGFORM[form]
+        if af is None:
+            src = 'Angle' if form == 'angle' else 'FrozenAngle'
+            af = 'FSameClass' if src == cname else 'FOtherAngle'
+        if per.get((cname, af), 0) >= 45 or cname not in ctors:
+            continue
+        o, raw = ctor_forms()[form](getattr(M, cname), v, 'ang', k)
+        supplied = [norm360(x) for x in raw] if af in ('FSameClass', 'FOtherAngle') else [float(x) for x in raw]
+        got = raw_slots(o)
+        if not all(math.isfinite(x) for x in supplied):
+            continue
+        per[(cname, af)] = per.get((cname, af), 0) + 1
+        cases.append((ctors[cname], af, supplied, got))
+        ck.count('ctor_row_corr_cases')
+        ck.hist('ctor_row_checked', f'{cname}:{af}')
+    cases = cases[:500]
+    if not cases:
+        ck.obligation('correspondence:ctor_rows', False, 'no constructor case recorded')
+        ck.tie_broken.append('correspondence ctor_rows: no cases')
+        return
+    t = lambda x: '(%s, %d, (%d))' % (('true' if dbl_parts(x)[0] else 'false'), dbl_parts(x)[1], dbl_parts(x)[2])
+    z = lambda x: '(%d, %d, (%d))' % dbl_parts(x)
+    lit = coq_list(f'("{c}"%string, {af}, ({t(sv[0])}, {t(sv[1])}, {t(sv[2])}), ({z(g[0])}, {z(g[1])}, {z(g[2])}))' for c, af, sv, g in cases)
+    pre = PRE + '''Definition row_of (c : string) (f : argform) : option ctor_action :=
+  match filter (fun r : ctor_row => (String.eqb (fst (fst r)) c && argform_eqb (snd (fst r)) f)%bool) angle_ctor_rows with r :: _ => Some (snd r) | [] => None end.
+Definition mk3 (p : bool * Z * Z) : b64 := let '(s, m, e) := p in mk s m e.
+'''
+    expr = ('bad_idx (fun c : string * argform * ((bool * Z * Z) * (bool * Z * Z) * (bool * Z * Z)) * ((Z * Z * Z) * (Z * Z * Z) * (Z * Z * Z)) => '
+            "let '(cn, f, sv, g) := c in let '(s1, s2, s3) := sv in let '(g1, g2, g3) := g in "
+            'match row_of cn f with Some a => match ctor_eval a (mk3 s1, mk3 s2, mk3 s3) with '
+            "Some (r1, r2, r3) => (t3_eqb (show r1) g1 && t3_eqb (show r2) g2 && t3_eqb (show r3) g3)%bool | None => false end | None => false end) 0%N "
+            f'({lit})%Z')
+    vals = (yield ([[expr]], 'ctorrows', pre))[0]
+    if vals is None:
+        ck.obligation('correspondence:ctor_rows', False, 'model could not be evaluated')
+        ck.tie_broken.append('correspondence ctor_rows: model evaluation failed')
+        return
+    bad = parse_coq_N_list(vals[0])
+    ck.obligation('correspondence:ctor_rows', not bad,
+                  f'{len(cases)} executed constructor calls over {len(per)} (class, argument form) pairs: slots computed by Num/AngleCtor.v ctor_eval over the '
+                  f'generated dispatch table vs the slots of the real object, bit for bit: {len(bad)} disagreements')
+    if bad:
+        ck.tie_broken.append('correspondence ctor_rows (dispatch table vs real constructors)')
+        ck.extra['ctor_rows_disagreement'] = [{'ctor': cases[i][0], 'form': cases[i][1], 'supplied': hexes(cases[i][2]), 'implementation': hexes(cases[i][3])} for i in bad[:5]]
 
 
 def search_ctor_forms(ck: Ck) -> None:
@@ -1472,6 +1561,8 @@ def search_ctor_forms(ck: Ck) -> None:
             for cname in ('Angle', 'FrozenAngle', 'Vec', 'FrozenVec'):
                 k = (ti + len(form)) % 4
                 probs = ctor_case(cname, form, v, k, impl_limit)
+                if not probs and form in FORM_TO_ARGFORM and 'Angle' in cname and len(CTOR_CORR_CASES) < 4000:
+                    CTOR_CORR_CASES.append((cname, form, list(v), k))
                 ck.count('ctor_form_cases')
                 ck.hist('ctor_form', form)
                 if 'Angle' in cname and any(not (0.0 <= float(x) < 360.0) or str(x) == '-0.0' for x in v):
@@ -1500,7 +1591,7 @@ def inplace_case(cname: str, v: list, opname: str, argkind: str) -> list[tuple[s
     arg = {'float': 2.5, 'int': 3, 'zero': 0.0, 'tuple': (1.0, 2.0, 3.0), 'vec': M.Vec(1.0, -2.0, 0.5), 'fvec': M.FrozenVec(1.0, -2.0, 0.5),
            'angle': M.Angle(10.0, 20.0, 30.0), 'fangle': M.FrozenAngle(10.0, 20.0, 30.0), 'matrix': M.Matrix.from_yaw(45.0),
            'fmatrix': M.FrozenMatrix.from_pitch(-1e-14), 'self': a}[argkind]
-    before, hb = snap(a), (hash(a) if cname != 'FrozenMatrix' else None)
+    before, hb = snap(a), (safe_hash(a) if cname != 'FrozenMatrix' else None)
     arg_before = snap(arg) if hasattr(arg, '__slots__') and not isinstance(arg, tuple) else None
     out: list[tuple[str, str]] = []
     try:
@@ -1510,7 +1601,7 @@ def inplace_case(cname: str, v: list, opname: str, argkind: str) -> list[tuple[s
     except (TypeError, ZeroDivisionError, ValueError, ArithmeticError):
         x = None
     what = f'x = {cname}{tuple(v)!r}; x {opname} {argkind}'
-    if snap(a) != before or (hb is not None and hash(a) != hb):
+    if snap(a) != before or (hb is not None and safe_hash(a) != hb):
         out.append((f'frozen-{cname}-changed-by-inplace-{opname}', f'{what}: the frozen object went from {before[1]} to {snap(a)[1]}'))
     if arg_before is not None and arg is not a and snap(arg) != arg_before:
         out.append((f'argument-changed-by-inplace-{opname}-{cname}', f'{what}: the argument went from {arg_before[1]} to {snap(arg)[1]}'))
@@ -1852,11 +1943,15 @@ def _theorems_record(ck: Ck, props_file: str, names: list[str], parts: list[list
 def run(ck: Ck) -> None:
     ck.rule = ('mod360: doubles from all binades / around multiples of 360 / subnormals / tiny negatives, non-trivial = the modulo changed '
                'the value, distinct by bit pattern; format: doubles incl. exact ties k/128, tiny values, boundaries, non-trivial = output has a '
-               'fraction or a sign; histories: random operation sequences (54 operation kinds) over registers of Vec/Angle/Matrix and frozen '
+               'fraction or a sign; histories: random operation sequences (65 operation kinds) over registers of Vec/Angle/Matrix and frozen '
                'twins, non-trivial = some register changed while a frozen register exists, distinct by full history; to_angle routes: '
                'non-trivial = a tiny non-zero operand; parse: corpus + generated strings (three formatted/literal/exotic numbers, 0-5 fields, '
                'stray brackets, 18 kinds of Unicode whitespace and look-alikes, all bracket styles incl. wrong ones), non-trivial = the model '
-               'predicts three decimal fields, distinct by text')
+               'predicts three decimal fields, distinct by text; constructor forms: 44 ways of building an object from three numbers x 4 classes x '
+               'value triples from 32 boundary/out-of-range floats and 16 ints, then 17 copy-like operations, non-trivial = an angle class and a '
+               'component outside [0,360) or -0.0, distinct by (class, form, values); hash: frozen values by seven routes, values around the '
+               'rounding boundaries of round(x, 6), non-trivial = a non-integer component; in-place: 13 operators x 3 frozen classes x 11 kinds of '
+               'argument; format specs: 38 specs x 4 classes, non-trivial = some component prints with an exponent')
     ck.trusted.append('hand-written models Num/Mod360.v (CPython float_rem on binary64), Num/Dec6.v (printf %.6f + rstrip), Num/VecText.v '
                       '(str.strip/split, bracket removal, plain-decimal reader), SM/FrozenOps.v + SM/FrozenCopy.v + SM/FrozenCopyValue.v '
                       '(frame, result aliasing, slot transfer of copies) - tied by differential runs on every execution; Num/AngleText.v '
@@ -1865,7 +1960,9 @@ def run(ck: Ck) -> None:
     ck.assumptions += ['operands of % 360 are finite doubles (no overflow to inf/nan inside Angle arithmetic)',
                        'C printf("%.6f") and float() are correctly rounded (IEEE 754 round-half-even); float() of a plain decimal is checked against '
                        'the exactly rounded Fraction on every parse case',
-                       'only the public API is used (no writes to underscore slots, no direct calls of dunder/underscore helpers)']
+                       'only the public API is used (no writes to underscore slots, no direct calls of dunder/underscore helpers)',
+                       "Python's format(float, spec) is taken as given: only what __format__ does to its output is modelled",
+                       'a call into the implementation that uses more than 20 s of CPU time is treated as not terminating']
     ok_t = ck.translate('AngleSites_gen', c05_sites.translate)
     side = ck.extra.get('translated', {}).get('AngleSites_gen', {})
     built = ok_t and ck.build(['Gen/AngleSites_gen.vo', 'Props/C05.vo'])
@@ -1928,7 +2025,10 @@ def run(ck: Ck) -> None:
             corr_results(ck, frames, side)
             corr_shapes(ck, frames, side)
         guarded(ck, search_to_angle)
+        CTOR_CORR_CASES.clear()
         guarded(ck, search_ctor_forms)
+        if built:
+            pend.append(Pending(ck, corr_ctor_rows(ck, side), pool))
         guarded(ck, search_frozen_keys)
         guarded(ck, search_format_spec)
         guarded(ck, search_text)
@@ -1954,15 +2054,22 @@ def run(ck: Ck) -> None:
 
 def guarded(ck: Ck, search, default=None):
     """Run one search; an exception that escapes from the implementation inside it (a broken tree can raise anywhere)
-    is reported as a failed obligation of the check instead of ending the run with an internal error."""
+    is a failing input of its own: reported as a violation whose replay is the search with this seed (and as a failed
+    obligation of the check when it was raised by the check itself) instead of ending the run with an internal error."""
     try:
         return search(ck)
     except Exception as e:          # noqa: BLE001
         import traceback
         tb = traceback.extract_tb(e.__traceback__)
-        where = next((f'{fr.name} ({fr.filename.rsplit("/", 1)[-1]}:{fr.lineno})' for fr in reversed(tb) if '/srctools/' in fr.filename), 'the check')
+        impl = next((fr for fr in reversed(tb) if '/srctools/' in fr.filename), None)
+        where = f'{impl.name} ({impl.filename.rsplit("/", 1)[-1]}:{impl.lineno})' if impl else 'the check'
         ck.obligation(f'search:{search.__name__}_completed', False, f'{type(e).__name__}: {e} raised in {where}')
         ck.tie_broken.append(f'{search.__name__} stopped by {type(e).__name__} in {where}')
+        if impl is not None:
+            ck.violation(f'implementation-raised-{type(e).__name__}-in-{impl.name}', f'{type(e).__name__}: {e} raised in {where} during {search.__name__}; '
+                         + ' <- '.join(f'{fr.name}:{fr.lineno}' for fr in reversed(tb[-6:])),
+                         {'search': search.__name__, 'seed': ck.seed, 'tier': ck.tier, 'how': f'./check C05 --tier {ck.tier} with VERIF_SEED={ck.seed}: checks.c05.{search.__name__}'})
+            ck.explain(f'search:{search.__name__}_completed')
         return default
 
 
@@ -2000,6 +2107,7 @@ def explain_failures(ck: Ck) -> None:
     if any(k.startswith(('angle-out-of-range-after-ctor', 'angle-ctor-wrong-value', 'ctor-', 'angle-out-of-range-after-iter_ctor',
                          'angle-out-of-range-after-new_', 'angle-out-of-range-after-ctor_')) for k in keys):
         ck.explain('instance:angle_constructors_normalise_every_argument_form')
+        ck.explain('correspondence:ctor_rows')
     if any(k.startswith('angle-ctor-wrong-value') for k in keys):
         for o in ('instance:all_angle_store_sites_safe', 'instance:no_single_modulo_store', 'instance:no_unclassified_angle_store'):
             ck.explain(o)
